@@ -811,6 +811,28 @@ def _deep_child(_job):
     exec("@dataclasses.dataclass\nclass Later:\n    x: int = 0\n", ns)      # the class comes into existence between two lookups
     if before is not r or look(c, ns["Fwd"]) is not r or look(c, ns["NFwd"]) is not r:
         bad.append(["Fwd", "ctx[ForwardRef('Later', module)] = r; ctx[Fwd] must be r before and after the class Later is defined"])
+    # references made from a bare NAME (no module given) where the class is visible to the calling code only as a variable of a
+    # function -- a plain local, a local that a nested function also uses (a cell), a free variable of the nested function that
+    # makes the reference: the reference names the class's own module, so the class finds what is stored under it
+    def closure_cases():
+        from fractions import Fraction
+        from pathlib import PurePath
+        from uuid import UUID
+
+        def uses():
+            return UUID
+        r1 = trefs.forwardref("UUID")
+
+        def inner():
+            return trefs.forwardref("PurePath"), PurePath
+        return [("UUID (a cell variable of the caller)", r1, UUID), ("PurePath (a free variable of the nested caller)", inner()[0], PurePath),
+                ("Fraction (a plain local of the caller)", trefs.forwardref("Fraction"), Fraction)]
+    for label, ref, cls in closure_cases():
+        c = tctx.TypeContext()
+        c[ref] = r
+        if look(c, cls) is not r or get(c, cls, d) is not r or ref not in c:
+            bad.append([label, f"ctx[forwardref({label.split()[0]!r})] = r with the stored reference {ref!r}; ctx[{cls.__name__}] gives "
+                               f"{look(c, cls)!r}, get gives {'the default' if get(c, cls, d) is d else 'r' if get(c, cls, d) is r else 'another value'}"])
     return bad
 
 
